@@ -398,7 +398,18 @@ func init() {
 				c04ExploreFrames(e, r, 3, map[string][]int{"dims": {4}}, "frames-3dev")
 				c04ExploreFramesFree(e, r, 0, map[string][]int{"dims": {5, 4}}, c04FilterStress, "filter-stress")
 			} else {
-				c04ExploreFramesFree(e, r, 1, map[string][]int{"dims": {5, 4}}, c04FilterStress, "filter-stress-1dev")
+				// one further deviation, but none that raises a quantiser beyond the pass's own menu: with
+				// level 67 a quantiser delta of +15 (or a segment quantiser) takes the dequantised
+				// coefficients into the range of the recorded 16-bit IDCT finding (DESIGN 9.2), below
+				// which C04 stays by design
+				fs := map[string][]int{"segments": {0}}
+				for k, v := range c04FilterStress {
+					fs[k] = v
+				}
+				for _, dn := range []string{"y1dc", "y2dc", "y2ac", "uvdc", "uvac"} {
+					fs["qdelta-"+dn] = []int{0}
+				}
+				c04ExploreFramesFree(e, r, 1, map[string][]int{"dims": {5, 4}}, fs, "filter-stress-1dev")
 				c04ExploreFrames(e, r, 3, nil, "frames-3dev")
 				c04ExploreFrames(e, r, 4, map[string][]int{"dims": {4}}, "frames-4dev")
 			}
